@@ -116,6 +116,7 @@ pub mod var_side { use super::*;
         pub closed spec fn path_spec(&self, rt: &dyn Runtime) -> Option<Seq<Key>> { path_upto(self, rt, self.indexes@.len() as int) }
 //@ item crates/core/src/runtime/variable.rs :: impl Variable::try_evaluate
 //@ props C07 C02
+//@ safety C02 C07
 //@ sig pub fn try_evaluate(&self, runtime: &dyn Runtime) -> (r: Option<Path>)
 //@ spec
     ensures
@@ -125,7 +126,7 @@ pub mod var_side { use super::*;
 //@ loop 0 kind=for
     invariant
         0 <= it.index@ <= self.indexes@.len(),
-        path_upto(self, runtime, it.index@) == Some(path.keys@),
+        path_upto(self, runtime, it.index@) == Some(path.keys@),     // [C07:path_is_name_then_evaluated_indices]
 //@ ghost before <<let v = expr.try_evaluate(runtime)?;>>
     proof { if path_upto(self, runtime, it.index@ + 1) is None { lemma_none_propagates(self, runtime, it.index@ + 1, self.indexes@.len() as int); } }
 //@ end
@@ -140,7 +141,7 @@ pub mod var_side { use super::*;
 //@ loop 0 kind=for
     invariant
         0 <= it.index@ <= self.indexes@.len(),
-        path_upto(self, runtime, it.index@) == Some(path.keys@),
+        path_upto(self, runtime, it.index@) == Some(path.keys@),     // [C07:path_is_name_then_evaluated_indices]
 //@ ghost before <<let v = expr.evaluate(runtime)?;>>
     proof { if path_upto(self, runtime, it.index@ + 1) is None { lemma_none_propagates(self, runtime, it.index@ + 1, self.indexes@.len() as int); } }
 //@ closure 0 arg_of=ok_or_else params=
